@@ -4,6 +4,7 @@ package main
 
 import (
 	"fmt"
+	"os"
 	"strings"
 
 	"mvdan.cc/sh/v3/syntax"
@@ -28,6 +29,13 @@ func c01(c *Ctx) {
 		}
 		if fl := c01Replay(mode, tc); fl != nil {
 			c.Fail(line, fl.String())
+			// self-check of the exclusion table: a replayed witness must be inside some exclusion,
+			// otherwise the random search would report it again under another spelling
+			if id := c01WitnessExcluded(mode, tc); id == "" {
+				c.Extra["corpus_witness_outside_exclusions"] = line
+			} else {
+				st.excluded["corpus:"+id]++
+			}
 		}
 		c.Case("corpus:"+line, true, "corpus")
 	}
@@ -51,6 +59,10 @@ func c01(c *Ctx) {
 			return
 		}
 		c01Report(c, tc, fl, st)
+	}
+	if os.Getenv("VERIF_L4_CORPUS_ONLY") != "" {
+		st.export(c)
+		return
 	}
 	// 2. repo seeds × variants
 	seeds := repoSeeds()
@@ -329,6 +341,22 @@ func c01SubExcluded(tc l4Case, sn subnode) string {
 		b, err2, p2 := tc.Opts.printNode(&syntax.Stmt{Cmd: cmd, Position: cmd.Pos()})
 		if err1 == nil && err2 == nil && p1 == "" && p2 == "" && a != b {
 			return "C01-command-first-newline"
+		}
+	}
+	return ""
+}
+
+func c01WitnessExcluded(mode string, tc l4Case) string {
+	f, ok := tc.tree()
+	if !ok {
+		return ""
+	}
+	if id := c01Excluded(tc, f, shapeOf(f)); id != "" {
+		return id
+	}
+	for _, sn := range subnodesOf(f) {
+		if sn.mode == mode {
+			return c01SubExcluded(tc, sn)
 		}
 	}
 	return ""
